@@ -328,16 +328,17 @@ def expected_D(content, n):
     return "D %s | re=1 size=%d len=%d minpfx=%d" % (content, n, n, n)
 
 
-_MARK = re.compile(r"^D VU n=(\d+) M \|")
+_MARK = re.compile(r"^D VU n=(\d+) M gm=([01]*) \|")
 
 
-def norm_model_line(mline, expected):
-    """strip the layout; a union image with marked items determines only n (the model prints `VU n=<n> M`)"""
+def norm_model_line(mline, expected, extra=""):
+    """strip the layout; a union image with marked items determines n and the marks of the gadget's H items (the model prints
+    `VU n=<n> M gm=<marks>`): both must equal what the object itself reports (n through get_result(), marks through hook H4)"""
     m = mline.split(" layout=")[0]
     mm = _MARK.match(m)
     if mm:
         em = re.match(r"^D VU k=\d+ n=(\d+) ", expected)
-        if em and em.group(1) == mm.group(1):
+        if em and em.group(1) == mm.group(1) and extra == "gm=" + mm.group(2):
             return expected.split(" | ")[0] + " | " + m.split(" | ", 1)[1]
     return m
 
@@ -392,7 +393,8 @@ class WirePart(Part):
 
     def diff(self, hist, impl_out, model_out):
         exp = self.expected_model_out(hist, impl_out)
-        mo = [norm_model_line(m, e) for m, e in zip(model_out, exp)] + model_out[len(exp):]
+        ex = [(l.split(" | ") + ["", "", ""])[3].strip() for l in impl_out if l.startswith("IMG ")]
+        mo = [norm_model_line(m, e, x) for m, e, x in zip(model_out, exp, ex)] + model_out[len(exp):]
         return core.first_diff(exp, mo, None)
 
 
@@ -491,7 +493,12 @@ class C10Part(WirePart):
         if not bl:
             hs.append(["load-missing-baseline-corpus %s" % self.fam])
         n = 6 if tier == "quick" else 60
-        for cls in class_schedule(self.fam, rng, n):
+        sched = class_schedule(self.fam, rng, n)
+        if self.fam == "vunion":
+            # the packed mark bits are the one field whose bytes depend on a PATTERN (which H items are marked, across byte boundaries):
+            # several patterns per run, not one
+            sched += ["marks-wide"] * (5 if tier == "quick" else 30) + ["marks"] * 2
+        for cls in sched:
             h = Hist(rng, zerofill=(self.fam == "vunion"))
             s, kind, cls, aux = STATE_GEN[self.fam](h, rng, tier, cls=cls)
             h.add("ser %d" % s)
